@@ -98,7 +98,7 @@ def handle (toks : List String) : String :=
     | none => "bad-op"
     | some (d, coord, tol, mn, mx, ws, xs) =>
       match split (withinTol (f64OfBits tol)) coord ws.sum (mkItemsF32 d ws xs) fuel 0
-          (f32OfBits mn) (f32OfBits mx) none with
+          (f32OfBits mn) (f32OfBits mx) none false with
       | .ok r => "ok " ++ toString r.left.length ++ " " ++ toString r.weightLeft ++ " " ++
           f32Hex r.splitPos ++ " | " ++ joinNats ((r.left ++ r.right).map (·.id))
       | .oob => "panic index out of bounds"
